@@ -405,7 +405,7 @@ def inline_helpers(source, qual, names):
                     args = _split_args(toks, k + 1, c_close)
                     if len(args) == len(plist):
                         lets = recv_let + "".join(f"let {p} = {src[toks[a].start:toks[b - 1].end]}; " for p, (a, b) in zip(plist, args))
-                        block = "{ " + lets + body_text + " }"
+                        block = "({ " + lets + body_text + " })"      # parenthesised: a block followed by `.method()` / `?` must stay one expression
                         edits.append((toks[start].start, toks[c_close].end, block))
                         n_sites += 1
                         k = c_close + 1
